@@ -100,6 +100,9 @@ class Check:
         for j, f in enumerate(["uc7_config.yaml", "data_manipulation.yaml"] if q else ["uc7_config.yaml", "data_manipulation.yaml", "uc7_config_tap003.yaml"] * 2):
             specs.append({"name": f"{f}~defender-first-{j}", "src": ["variant", {"base": ["shipped", f], "settings_seed": seed * 10 + 7 + j, "defender_first": True}],
                           "seed": seed * 10 + 8 + j, "steps": (32 if q else 96) if f.startswith("uc7") else steps, "episodes": 2, "max_len": None})
+        for j in range(1 if q else 4):  # TAP001 that keeps re-scanning in random order after sweeping all its networks in vain
+            specs.append({"name": f"uc7~repeat-scan-{j}", "src": ["variant", {"base": ["shipped", "uc7_config.yaml"], "settings_seed": seed * 10 + 3 + j, "p_repeat_scan": 1.0}],
+                          "seed": seed * 10 + 4 + j, "steps": 36 if q else 128, "episodes": 2, "max_len": None})
         for g in range(4 if q else 16):
             sd = seed * 1000 + 200 + g
             specs.append({"name": f"gen-defender-first-{sd}", "src": ["gen", {"seed": sd, "knobs": {"p_random_agent": 0.5, "defender_position": "first", "min_clients": 3}}],
